@@ -20,6 +20,19 @@ def gen_programs(seed, n, avoid):
     return progs, used_total
 
 
+def resource_exhaustion_on_both(b, ref):
+    """boa ended in its recursion / stack limit and V8 threw too, after printing at least as much: the program recurses
+    without bound (e.g. a getter that reads itself), which has no specified outcome — the engines run out of different
+    resources at different depths"""
+    bc = [s["c"] for s in b.get("steps", [])]
+    rc = [s["c"] for s in ref.get("steps", [])]
+    if not any(c in ("limit:recursion", "limit:stack") for c in bc):
+        return False
+    if not any(c.startswith("throw:") for c in rc):
+        return False
+    return len(ref.get("trace") or []) >= len(b.get("trace") or [])
+
+
 def known_reproducers(chk, eng):
     """open findings of C01 are replayed on every run"""
     for k in chk.open_known:
@@ -86,6 +99,9 @@ def run(tier, seed):
             cl = diffrun.classify(b)
             if cl.startswith("inconclusive"):
                 chk.inconc(cl[:40])
+                continue
+            if resource_exhaustion_on_both(b, ref):
+                chk.inconc("unbounded-recursion-in-both-engines")
                 continue
             key = "%s/%s" % (kind, origin)
             modes_seen[key] = modes_seen.get(key, 0) + 1
